@@ -7,7 +7,7 @@ W=$(mktemp -d /tmp/gtsa_refactor_XXXX)
 git -C /repo worktree add -q --detach $W/wt HEAD
 mkdir -p $W/code; cp -r /verif/gtsa /verif/check.py /verif/known_findings.json $W/code/      # snapshot of the checker (it may be edited meanwhile)
 BAD=0; N=0
-for P in refactors/*/[rst]*.diff; do
+for P in refactors/*/[rstu]*.diff; do
   N=$((N+1))
   git -C $W/wt checkout -q -- . ; git -C $W/wt clean -fdq gaussian_toolbox; rm -rf $W/wt/_gtsa_out
   git -C $W/wt apply /verif/$P || { echo "$P: does not apply"; BAD=$((BAD+1)); continue; }
